@@ -377,8 +377,61 @@ def operand_n(s):
     return None
 
 
+def follow_broadcast_forward(s, v):
+    """`return name(a, vec_t<T,N>(b));`: a scalar-operand overload that broadcasts the scalar and calls the vec-vec overload of
+    the same name.  Rewrites the body to the callee's per-component expression with the arguments bound (component k of a
+    broadcast vec_t<T,N>(b) is b, by the broadcast constructor that R-C04-5 decides)."""
+    tu, f = v.tu, v.f
+    t = single_return(v)
+    if t is None:
+        return
+    t0 = unwrap_vec(t) if t[0] == 'ctor' and len(t[2]) == 1 else t
+    if t0[0] == 'b' and 'operator' + t0[1] == s.name:
+        args = (t0[2], t0[3])
+    elif t0[0] == 'call' and t0[1] == s.name and len(t0[2]) == len(s.params):
+        args = t0[2]
+    else:
+        return
+    def bcast(x):
+        return x[0] == 'ctor' and x[1] and x[1].startswith('vec_t<') and len(x[2]) == 1 and x[2][0][0] == 'p' \
+            and s.params[x[2][0][1]]['k'] == 'scalar'
+    if not any(bcast(a) for a in args) or not all(bcast(a) or (a[0] == 'p' and s.params[a[1]]['k'] == 'vec') for a in args):
+        return
+    g = None
+    for nm, q, node in v.callees:
+        if nm == s.name:
+            cand = tu.callee_fn(node)
+            if cand is not None and cand['id'] != f['id'] and tu.fn_file(cand) == VEC_H:
+                g = cand
+    if g is None and f['dep']:
+        n = operand_n(s)
+        cands = []
+        for c in tu.functions.values():
+            if c['dep'] and not c.get('rec') and c['id'] != f['id'] and tu.fn_file(c) == VEC_H and len(c['params']) == len(args) \
+                    and (tu.node(c['id']) or {}).get('name') == s.name:
+                cs = signature(tu, c)
+                if all(p['k'] == 'vec' and p['sh']['n'] == n for p in cs.params) and len(cs.ptypes[0] & cs.ptypes[-1]) > 0:
+                    cands.append(c)
+        g = cands[0] if len(cands) == 1 else None
+    if g is None:
+        return
+    gv = FnView(tu, g)
+    body = single_return(gv)
+    if body is None:
+        return
+    body = subst_params(body, tuple(args))
+    v.callees = list(gv.callees)      # the component-level callees are now those of the overload forwarded to
+
+    def comp_of_bcast(x):
+        if x[0] == 'm' and x[2] in COMPS and bcast(x[1]):
+            return x[1][2][0]
+        return x
+    v._body = [('ret', map_terms(body, comp_of_bcast))]
+
+
 def fam_lifted(res, s, v, apply_):
     """unary/binary operator or functor lifted per component; apply_(operands) -> expected term"""
+    follow_broadcast_forward(s, v)
     n = operand_n(s)
     if n is None:
         res.und(R1, 'operands do not have one fixed component count')
@@ -853,6 +906,30 @@ def fam_interpolate(res, s, v):
 def fam_argmax(res, s, v, typed_n=None):
     b = v.body()
     names = s.names
+    t = single_return(v)
+    if t is not None:
+        # `size_t(std::max_element(p, p + N) - p)` with p the pointer view of v: the first position of the largest component
+        # (max_element keeps the first of equal maxima and compares with <, as the loop `v[i] > v[best]` does)
+        x = strip_casts(t, pred=lambda ty: True)
+        n = s.params[0]['sh']['n']
+        bound = ('lit', __import__('fractions').Fraction(n)) if isinstance(n, int) else ('tp', n)
+        P = ('p', 0)
+        me = ('call', 'max_element', (P, ('b', '+', P, bound)))
+        if x == ('b', '-', me, P):
+            res.ok(R3, 'arg_max = std::max_element over the %s components of the pointer view, as an index' % (n,))
+            return
+        if x[0] == 'b' and x[1] == '-' and x[2][0] == 'call' and x[2][1] in ('max_element', 'min_element') and x[3] == P:
+            c = x[2]
+            if c[1] == 'min_element' and c[2] == me[2]:
+                res.bad(R3, 'arg_max uses std::min_element: it returns the position of the smallest component', 'argmax-cmp')
+                return
+            if c[1] == 'max_element' and len(c[2]) == 2 and c[2][0] == P and c[2][1][0] == 'b' and c[2][1][1] == '+' and c[2][1][2] == P \
+                    and c[2][1][3][0] in ('lit',) and bound[0] == 'lit' and c[2][1][3][1] < bound[1]:
+                res.bad(R3, 'arg_max scans only the first %s of the %s components' % (c[2][1][3][1], n), 'argmax-bound')
+                return
+        if x[0] != 'v':
+            res.und(R3, 'arg_max: expression not recognised: %s' % show(t, names))
+            return
     shown = '; '.join(str(x[0]) for x in b)
     if not (len(b) == 3 and b[0][0] == 'decl' and b[1][0] == 'for' and b[2][0] == 'ret'):
         res.und(R3, 'arg_max: body shape not recognised (%s)' % shown)
